@@ -313,6 +313,15 @@ export const $S = {
         if (args[0] instanceof SymAscii) return new SymTA('u8', args[0].chars.slice(), 0, args[0].length);
         return SymTA.make('u8', o.encode(args[0]));
       }
+      if (o instanceof TextEncoder && m === 'encodeInto' && args[1] instanceof SymTA) {
+        // encodeInto(source, destination): writes as many whole code points as fit and reports {read, written}
+        const dst = args[1];
+        if (args[0] instanceof SymAscii) { const n = Math.min(args[0].length, dst.length); for (let i = 0; i < n; i++) dst.store(i, args[0].chars[i]); return { read: n, written: n }; }
+        const tmp = new Uint8Array(dst.length);
+        const r = o.encodeInto(args[0], tmp);
+        for (let i = 0; i < r.written; i++) dst.store(i, tmp[i]);
+        return r;
+      }
     }
     if (o === Math && args.some(isSym)) {
       if (m === 'floor' || m === 'ceil' || m === 'round' || m === 'trunc') return args[0];   // integer-valued terms only
